@@ -4,7 +4,7 @@ import json, os, subprocess
 VERIF = os.path.dirname(os.path.dirname(os.path.abspath(__file__)))
 
 HOOK_COMMITS = ["c3d3db1"]
-FIX_COMMITS = ["b26044a", "584cccc"]
+FIX_COMMITS = ["b26044a", "584cccc", "84460e9"]
 
 CHECKS = {
  "C01": dict(
@@ -55,6 +55,14 @@ CHECKS = {
     note="Trusted: TLC; fontTools otTables decompiler; anchor-name parsing re-implemented lexically in the harness.",
     technique="TLA+ mark-attachment interpreter evaluated by TLC on compiled tables; exhaustive TLC check of the class/lookup ordering rule",
     design="5 C06"),
+ "C16": dict(
+    text="FontInfo.tla states the fallback chains (metrics as exact quarter-unit arithmetic, style-map / preferred / PostScript "
+         "names on code-point sequences) and the field mapping; TLC checks the metric cluster over all presence subsets; every "
+         "generated info subset (incl. non-ASCII, non-BMP and PostScript-forbidden characters) is compiled to TTF and OTF and "
+         "the reloaded name / OS/2 / hhea / head / post / CFF fields are validated by TLC.",
+    note="Trusted: TLC; fontTools table decompilers; italicAngle = 0 domain; NFKD normalisation is environment (post-condition only).",
+    technique="TLA+ fallback/field model; TLC exhaustive subset check + TLC validation of reloaded tables of real compiles",
+    design="5 C16"),
  "C17": dict(
     text="FeaFile.tla states C17 declaratively (user statements are a subsequence of the compiled source; per tag: untouched "
          "without marker, generated rules exactly at the first marker's position with one); FeaMC.tla transcribes setContext / "
@@ -95,6 +103,14 @@ CHECKS = {
     note="Trusted: TLC; sha256 of saved bytes as opaque observation; SOURCE_DATE_EPOCH pinned.",
     technique="TLA+ history/memo model; TLC check + TLC validation of digests logged by fresh subprocesses across environments",
     design="5 C08"),
+ "C11": dict(
+    text="Names.tla transcribes _build_production_name / _unique_name on code-point sequences (so '.N' suffixes can collide); "
+         "TLC checks uniqueness / supplied-name-prefix / legal characters for every supplied-name sequence from a colliding pool; "
+         "every generated compile pair (production names on/off, lib switches, TTF/CFF/CFF2) is validated by TLC: only post/CFF "
+         "differ byte-wise, names unique and legal, supplied names used, and the exact model rename.",
+    note="Trusted: TLC; per-table raw bytes via TTFont.reader with head.checkSumAdjustment masked.",
+    technique="TLA+ transcription of the renaming algorithm; TLC exhaustive check + TLC validation of real compile pairs",
+    design="5 C11"),
  "C12": dict(
     text="CffOptions.tla models the option routing of the CFF path and is checked exhaustively (all 18 combinations); every "
          "combination is executed on generated sources and each trace is validated by TLC against the same source-derived "
